@@ -369,6 +369,50 @@ def sessionUpOn (s : ServerCfg) (c : ClientCfg) (p : Pki) : Bool :=
   | .wss => innerAccepts s.tcpMux 0x47 && sessionUp s { c with tlsEnable := true } p
   | _ => sessionUp s c p
 
+/-! ## 3c. wss the way it is deployed: a TLS terminator in front of frps
+
+  frps has no wss listener; `transport.protocol = "wss"` is for a TLS reverse proxy (nginx, a load
+  balancer) that presents ITS certificate and hands the decrypted websocket stream to frps's plain
+  port.  The client side is all in client/connector.go realConnect:
+  `tlsEnable := Enable; if protocol == "wss" { tlsEnable = true }` — the configured certificate,
+  trusted CA and server name go into the tls.Config whatever `transport.tls.enable` says —, dial options
+  `WithTLSConfigAndPriority(100, tlsConfig)` then the websocket hook (priority 110); no custom byte, no
+  inner TLS. -/
+
+/-- which control transports are TLS by themselves: the connector builds a tls.Config for them
+    whatever `transport.tls.enable` says (realConnect for wss, Open for quic) -/
+def tlsRequired : Protocol → Bool
+  | .wss => true
+  | .quic => true
+  | _ => false
+
+/-- the certificate the endpoint in front of frps presents -/
+structure Terminator where
+  issuer : Nat
+  dns : List Str := []
+  ips : List Str := []
+  deriving DecidableEq, Repr
+
+/-- the certificate facts as the client sees them when it talks to the terminator -/
+def Terminator.pki (t : Terminator) (p : Pki) : Pki :=
+  { p with srvCertIssuer := some t.issuer, srvCertDNS := t.dns, srvCertIPs := t.ips }
+
+/-- the client's crypto/tls verdict on the terminator's certificate (the terminator asks for no client
+    certificate) -/
+def terminatorAccepted (ct : ClientTls) (t : Terminator) (p : Pki) : Bool :=
+  serverCertAccepted { force := false, trustedCA := false, certGiven := true } ct (t.pki p)
+
+/-- what frps sees behind the terminator: a websocket client without TLS and without the custom byte -/
+def behindTerminator (c : ClientCfg) : ClientCfg := { c with protocol := .websocket, tlsEnable := false }
+
+/-- does a real frpc with `protocol = "wss"` get a session through terminator `t`?  The TLS handshake
+    with the terminator under the connector's tls.Config, then the plain websocket stream at frps
+    (refused by a forcing frps: the stream it sniffs is not TLS) -/
+def wssSessionVia (s : ServerCfg) (c : ClientCfg) (p : Pki) (t : Terminator) : Bool :=
+  match clientTls { c with protocol := .wss } with
+  | some ct => terminatorAccepted ct t p && sessionUp s (behindTerminator c) p
+  | none => false
+
 /-! ## 4. Messages, secrets, channels, layers -/
 
 inductive MsgKind
